@@ -57,6 +57,7 @@ func checkC08(c *Ctx) {
 		"G-C08-transcript: every handshake message sent with writeRecord(recordTypeHandshake, m.marshal()) is also fed to the transcript hash")
 	c.NotDec = append(c.NotDec, "unforgeability of the signatures and the PRF (cryptographic)", "that both sides abort under every single-field rewrite (follows from the transcript rule plus Finished, given the PRF)", "certificate path validation itself (C10)")
 	c08Chain(c)
+	c08Roots(c)
 	c08SKE(c)
 	c08Finished(c)
 	c08ClientAuth(c)
@@ -667,4 +668,50 @@ func verifyLoopHeader(c *Ctx, f *ssa.Function, v *ssa.Call) *ssa.BasicBlock {
 		return h
 	}
 	return nil
+}
+
+// c08Roots: the trust anchors used for the server chain are the configured ones: nothing received from the peer is
+// ever added to the Roots pool (peer-supplied certificates may only become intermediates)
+func c08Roots(c *Ctx) {
+	rule := "G-C08-roots"
+	n := 0
+	for _, name := range []string{"(*clientHandshakeState).doFullHandshake", "(*clientHandshakeStateGM).doFullHandshake", "(*serverHandshakeState).processCertsFromClient", "(*serverHandshakeStateGM).processCertsFromClient"} {
+		f := c.Fn("gmtls", name)
+		if f == nil {
+			c.Missing(rule, "gmtls."+name, "method", "not found")
+			continue
+		}
+		for _, call := range callsNamedIn(f, "AddCert") {
+			n++
+			c.Evals++
+			// receiver: opts.Intermediates or opts.Roots
+			pool := ""
+			if ld, ok := call.Call.Args[0].(*ssa.UnOp); ok {
+				if fa, ok := ld.X.(*ssa.FieldAddr); ok {
+					pool = fieldName(fa.X.Type(), fa.Field)
+				}
+			}
+			construct := fmt.Sprintf("AddCert #%d does not add a peer certificate to the roots", siteOrdinalByID(f, call))
+			if pool == "Intermediates" {
+				c.Holds(rule, fname(f), construct, "adds to the intermediates pool", call.Pos())
+				continue
+			}
+			// anything else (Roots, or an unknown pool): the certificate must not come from the peer's message
+			fromPeer := false
+			if ld, ok := call.Call.Args[1].(*ssa.UnOp); ok {
+				if ia, ok := ld.X.(*ssa.IndexAddr); ok {
+					switch x := ia.X.(type) {
+					case *ssa.MakeSlice:
+						fromPeer = true
+					case *ssa.Slice:
+						_, fromPeer = x.X.(*ssa.MakeSlice)
+					}
+				}
+			}
+			c.Check(!fromPeer, rule, fname(f), construct, "the added certificate comes from the built-in list, not from the peer's message", "a certificate parsed from the peer's Certificate message is added to the "+pool+" pool: the peer chooses its own trust anchor", call.Pos())
+		}
+	}
+	if n < 4 {
+		c.Undecided(rule, "gmtls", "AddCert call sites", fmt.Sprintf("only %d found", n), token.NoPos)
+	}
 }
